@@ -17,7 +17,7 @@ FUNCTIONS = ["solvor.cp.Model.solve / _solve_dfs / _propagate* / _choose_solver"
              "solvor.cp_encoder.SATEncoder.solve (incl. decode_sat_solution)", "solvor.sat.solve_sat (as called by the encoder)"]
 BOUNDS = {
     "quick": "same program space as C06 quick (every linear shape of the operator grammar x ==/!= x 4 sampled instantiations, every global constraint, "
-             "120 two-constraint programs); each program solved with solver in {auto, dfs, sat} on fresh models and once more on ONE shared model "
+             "120 two-constraint programs, and global+simple constraint pairs in both orders); each program solved with solver in {auto, dfs, sat} on fresh models and once more on ONE shared model "
              "object (auto then sat then dfs); hints absent / in-domain / out-of-domain; solution_limit a symbolic Int in 1..4",
     "thorough": "C06 thorough program space",
 }
@@ -112,7 +112,7 @@ def h_solve(s, programs, hint_mode):
 
 def items(tier, rng):
     q = tier == "quick"
-    progs = P.linear_programs(rng, 4 if q else 40) + P.global_programs(rng, 8 if q else 120, big=not q) + P.pair_programs(rng, 120 if q else 3000)
+    progs = P.linear_programs(rng, 4 if q else 40) + P.global_programs(rng, 8 if q else 120, big=not q) + P.pair_programs(rng, 120 if q else 3000) + P.mixed_pair_programs(rng, 60 if q else 600)
     out = []
     for ch in P.chunks(progs, 6):
         out.append({"name": "solve", "harness": "h_solve", "params": {"programs": ch, "hint_mode": "none"}})
